@@ -63,6 +63,8 @@ type Err struct {
 	CommitTS uint64 // already-committed / conflict commit ts / min commit ts
 	Lock     *Lock
 	Msg      string
+	// Assertion: the assertion that failed (class assertion)
+	Assertion kvrpcpb.Assertion
 	// Also lists the other error classes that apply to the same request: which of several
 	// applicable errors is reported first is not part of the reference semantics.
 	Also []string
@@ -327,6 +329,9 @@ type PrewriteOpts struct {
 	// CheckNotExists for existence (the check belongs to the lock request); the conflict check stays.
 	// This is the mock's reading of a case on which the property is silent.
 	NoExistenceCheckForPessimistic bool
+	// AssertionLevel (TiKV's check_assertion): Off - mutation assertions are ignored; Fast - an assertion is judged
+	// where the newest version was read for the conflict check anyway; Strict - always
+	AssertionLevel kvrpcpb.AssertionLevel
 }
 
 // PrewriteResult is the answer to a prewrite.
@@ -399,6 +404,16 @@ func (s *Store) Prewrite(muts []*kvrpcpb.Mutation, o PrewriteOpts) PrewriteResul
 				}
 				if shouldNotExist && exists {
 					fail(&Err{Class: "exists", Key: m.Key})
+					continue
+				}
+			}
+		}
+		if m.Assertion != kvrpcpb.Assertion_None && o.AssertionLevel != kvrpcpb.AssertionLevel_Off {
+			loaded := !ownPess && !(pessimisticTxn && o.SkipConstraintForUnlocked && !o.IsRetry)
+			if loaded || o.AssertionLevel == kvrpcpb.AssertionLevel_Strict {
+				_, exists := k.latestValue()
+				if (m.Assertion == kvrpcpb.Assertion_Exist && !exists) || (m.Assertion == kvrpcpb.Assertion_NotExist && exists) {
+					fail(&Err{Class: "assertion", Key: m.Key, LockTS: o.StartTS, Assertion: m.Assertion})
 					continue
 				}
 			}
